@@ -222,17 +222,19 @@ def check_leaf(rn):
 @st.composite
 def restore_cases(draw):
     from props import c01
+    from vf.pre import Pre
+    pre = Pre(draw, 8)      # control choices first (vf/pre.py)
     rn, w = draw(c01.long_words())
     names = names_of(rn)
     w = [a for a in w if a in names][:40]
-    if w and draw(st.integers(0, 4)) > 0:
-        d = draw(st.integers(0, len(w) - 1))
+    if w and not pre.chance(5):
+        d = pre.int(0, len(w) - 1)
         c = w[d]
         del w[d]
-        if draw(st.integers(0, 5)) == 0:
-            c = draw(st.sampled_from(names))
+        if pre.chance(6):
+            c = pre.pick(names)
     else:
-        c = draw(st.sampled_from(names + [lang.FOREIGN]))
+        c = pre.pick(names + [lang.FOREIGN])
     return rn, tuple(w), c
 
 
